@@ -18,7 +18,7 @@
 (*                   ubi_and_ucell_to_u                                    *)
 (*   xfab.tools.u_to_rod (sign convention of the Rodrigues vector)         *)
 (*                                                                         *)
-(* Three parts, selected by the constant PART (one TLC run each).          *)
+(* Five parts, selected by the constants PART / OBJ (one TLC run each).    *)
 (*                                                                         *)
 (* PART = "alg"   (mode A, case oracle).  A lattice is                     *)
 (*     - an exact upper-triangular B = Bn/bd with positive diagonal        *)
@@ -47,8 +47,16 @@
 (*     Cayley  (I - [r]x) U^T = (I + [r]x)  : r is the Rodrigues vector    *)
 (*       of U^T (the xfab / GrainSpotter sign), whenever 1 + tr U # 0      *)
 (*     EmitAlg  prints the case                                            *)
-(*   Configurations: Lattice_alg_q (6 + 3 lattices x 117 rotations),       *)
-(*   Lattice_alg_t (12 + 7 lattices x 784 rotations = 15680 cases).        *)
+(*   Configurations: Lattice_alg_q (8 + 3 lattices x 117 rotations; the    *)
+(*   tetragonal (a = b) and the sheared + strained cubic cell are in the   *)
+(*   quick set), Lattice_alg_t (13 + 7 lattices x 784 rotations).          *)
+(*   SCALE: the algebra is covariant under ubi -> s ubi (mt s^2, rmt s^-2, *)
+(*   UB and B s^-1, lengths s; U, Rod, angles unchanged).  The harness     *)
+(*   replays every emitted case also at s = 1/4 and s = 100 (cells of      *)
+(*   about 1 A and 1000 A), scaling the emitted fractions in python        *)
+(*   integers (re-checked there: ubi ubi^T = mt, UB ubi = I, B ubi = U^T)  *)
+(*   and judging with purely relative tolerances; the numerators would not *)
+(*   fit TLC's 32 bits.                                                    *)
 (*                                                                         *)
 (* PART = "cache" (mode B, behaviour replay).  The lazy caches of `grain`. *)
 (*   ver    number of set_ubi calls so far (the constructor is the first)  *)
@@ -58,43 +66,99 @@
 (*          an array that IS the cache                                     *)
 (*   ret    provenance of the value handed out by the last Read            *)
 (*   hist   operations so far                                              *)
-(*   SetUbi(m)  set_ubi: ver+1, clear_cache (FORGET = fields it forgets)   *)
+(*   ubip   provenance of self.ubi ({ver}; {0} = the caller edited an      *)
+(*          array that IS self.ubi)                                        *)
+(*   argl   the caller still holds, unedited, the array it handed to the   *)
+(*          constructor / the last set_ubi                                 *)
+(*   SetUbi(m, how)  set_ubi: ver+1, clear_cache (FORGET = fields it       *)
+(*              forgets), self.ubi = np.array(ubi, float) is a copy        *)
+(*              (ALIASARG = TRUE: it is the caller's array)                *)
+(*   EditArg    the caller overwrites the array it handed in (with the     *)
+(*              other matrix); every later read must still describe the    *)
+(*              matrix as it was at the call                               *)
 (*   Read(f)    property getter: real dependency chain                     *)
 (*              rmt <- mt, unitcell <- mt, B <- unitcell, U <- B (+ ubi),  *)
 (*              Rod <- U, UB and mt from ubi; ub / u are aliases; then the *)
 (*              caller overwrites the returned array (NOCOPY = fields that *)
 (*              hand out the cache itself)                                 *)
-(*   The pinned code is FORGET = {}, NOCOPY = {}.                          *)
+(*   The pinned code is FORGET = {}, NOCOPY = {}, ALIASARG = FALSE.        *)
 (*   Invariants: Coherent (cache[f] filled => made from the current ubi    *)
 (*   only), ReadFresh (what Read returned was made from the current ubi),  *)
-(*   DepClosed (a filled cache has its dependency filled).                 *)
+(*   DepClosed (a filled cache has its dependency filled), UbiOwn (self.ubi*)
+(*   is the matrix of the last set_ubi).                                   *)
 (*   Bound: MaxDepth operations.                                           *)
+(*   The model is covariant in the choice of the two matrices; the harness *)
+(*   instantiates the pair in several classes (everything differs / same   *)
+(*   lattice rotated: only UB, U, Rod differ / same U other cell / one     *)
+(*   entry + 1e-7 / strains 5e-6, 1e-7, 3e-8 hydrostatic and shear): a     *)
+(*   stale value is observable in exactly the fields that differ.          *)
 (*                                                                         *)
 (*   Configurations: Lattice_cache_q / _t (every behaviour of depth 4 / 5,  *)
-(*   emitted), _d6 (depth 6, invariants only, 1.9e6 states), _tr (VIEW     *)
+(*   emitted), _d6 (depth 6, invariants only), _tr (VIEW                   *)
 (*   View: every transition of the reduced graph, emitted with its         *)
-(*   representative path), _forget / _nocopy (defect configurations: TLC   *)
-(*   must find Coherent violated; the counterexample is replayed on the    *)
-(*   real grain, which must not show it).                                  *)
+(*   representative path), _forget / _nocopy / _alias (defect              *)
+(*   configurations: TLC must find Coherent / UbiOwn violated; the         *)
+(*   counterexample is replayed on the real grain, which must not show it).*)
+(*                                                                         *)
+(* PART = "cache", OBJ = "tmap" (mode B).  The derived maps of TensorMap   *)
+(*   (tensor_map.py:533-731: __init__, from_ubis, UBI setter, __setitem__, *)
+(*   add_map, clear_cache, properties UB mt unitcell B U).  Same state     *)
+(*   machine with Fields = {UB, mt, unitcell, B, U} (no rmt, no Rod, no    *)
+(*   aliases), chain unitcell <- mt, B <- unitcell, U <- B (+ UBI).        *)
+(*   New(how)   construction: TensorMap(maps = {UBI: m1}) or               *)
+(*              TensorMap.from_ubis(m1 in reconstruction order: the map is *)
+(*              then a flipped / axis-swapped, non-contiguous view)        *)
+(*   SetUbi(m, how)  how = setter (T.UBI = m) | item (T["UBI"] = m) |      *)
+(*              add_map (T.add_map("UBI", m)); all three clear_cache       *)
+(*   Read(f)    T.f ; the map is handed out by reference by design and the *)
+(*              container keeps the caller's UBI array, so the caller does *)
+(*              not write into either in this model (no EditArg, no        *)
+(*              scribble).  eps_* / sig_* maps belong to property C10.     *)
+(*   Configurations: Lattice_tmap_q / _t (every behaviour of depth 4 / 5   *)
+(*   incl. New), _tr (every transition), _forget (defect configuration).   *)
 (*                                                                         *)
 (* PART = "map"  NaN-masked voxel maps: MapVoxel picks the mask of the     *)
 (*   UBI map and an independent mask of a B map over a 2x3 map; every      *)
 (*   vectorised kernel is pointwise with a NaN guard, so the output is NaN *)
 (*   exactly on the mask (union of masks for the two-input kernel) and     *)
 (*   the other voxels equal the unmasked run (NaNExact, Neighbours).       *)
+(*                                                                         *)
+(* PART = "call"  how a vectorised kernel is called.  A guvectorize kernel *)
+(*   gets a result block it did not allocate: numpy's np.empty (heap       *)
+(*   content), or the array the caller passed positionally / as out=.      *)
+(*   Every arm of every kernel stores every element of its block           *)
+(*   (tensor_map.py:38-41, 60-63, 89-102, 127-158, 182-187); the model     *)
+(*   keeps, per kernel and arm, the element classes stored                 *)
+(*   (UNWRITTEN = classes an arm leaves out; pinned code: {}).             *)
+(*   CallPick chooses kernel (the five + fast_invert on mt), how the       *)
+(*   result is provided (alloc | pos | out), what the buffer held before   *)
+(*   (7.25 everywhere | NaN everywhere), the layout (flat (6,) | grid      *)
+(*   (1,2,3) | every second voxel of a (12,) stack, result into every      *)
+(*   second slot of the buffer | the flipped, axis-swapped view from_ubis  *)
+(*   makes | bare core dimensions of one voxel, as point_by_point.py:1186  *)
+(*   calls unitcell_to_b | a map without voxels) and the NaN masks.        *)
+(*   Invariant CallDefined: every element of every result voxel is "nan"   *)
+(*   (exactly on the mask) or the value computed from the inputs - never   *)
+(*   what the block held before.  Configurations: Lattice_call (all 10690  *)
+(*   calls, emitted), Lattice_call_unwritten (defect configuration:        *)
+(*   unitcell_to_b without the three zero stores; TLC must find            *)
+(*   CallDefined violated, the real kernel must not show it).              *)
 (***************************************************************************)
 EXTENDS ExactLA, Json
 
-CONSTANTS PART,       \* "alg" | "cache" | "map"
+CONSTANTS PART,       \* "alg" | "cache" | "map" | "call"
+          OBJ,        \* cache part: "grain" | "tmap"
           CELLS,      \* set of <<Bn, bd>> : upper triangular integer Bn, B = Bn / bd
           GENS,       \* set of <<An, ad>> : direct basis rows, det > 0
           ROTS,       \* set of <<a1, a2, a3>> (angles)  U = Rz(a1) Ry(a2) Rx(a3)
           MaxDepth,   \* cache part: number of operations
           FORGET,     \* cache part: fields clear_cache does not reset   (pinned code: {})
           NOCOPY,     \* cache part: fields whose getter returns the cache itself (pinned code: {})
+          ALIASARG,   \* cache part: set_ubi keeps the caller's array instead of a copy (pinned code: FALSE)
+          UNWRITTEN,  \* call part: set of <<kernel, arm, element class>> an arm does not store (pinned code: {})
           EmitMode    \* cache part: 0 none, 1 every transition (ACTION_CONSTRAINT), 2 final states
-VARIABLES pc, lat, rot, ver, cur, cache, ret, hist, mku, mkb
-vars == <<pc, lat, rot, ver, cur, cache, ret, hist, mku, mkb>>
+VARIABLES pc, lat, rot, ver, cur, cache, ret, hist, mku, mkb, ubip, argl, cs
+vars == <<pc, lat, rot, ver, cur, cache, ret, hist, mku, mkb, ubip, argl, cs>>
 
 \* ---- constant sets (cfg files cannot hold tuples: `CELLS <- CELLS_q`) --------------------------------
 UT(a, b, c, d, e, f) == << <<a, b, c>>, <<0, d, e>>, <<0, 0, f>> >>
@@ -103,15 +167,15 @@ CELLS_q == { << UT(4,0,0, 4,0, 4), 16 >>,          \* cubic a = 4
              << UT(5,0,-1, 4,0, 3), 20 >>,         \* monoclinic, beta # 90
              << UT(5,0,0, 4,1, 3), 20 >>,          \* alpha # 90  (exercises -c* sin(beta*) cos(alpha))
              << UT(6,1,-1, 5,2, 4), 24 >>,         \* triclinic
-             << UT(4,-2,1, 5,-1, 3), 16 >> }       \* triclinic, other signs
+             << UT(4,-2,1, 5,-1, 3), 16 >>,        \* triclinic, other signs
+             << UT(4,0,0, 4,0, 3), 16 >>,          \* tetragonal (a = b)
+             << UT(16,1,0, 16,-1, 17), 64 >> }     \* cubic with shear + normal strain ("small arbitrary strains")
 CELLS_t == CELLS_q \cup
-           { << UT(4,0,0, 4,0, 3), 16 >>,          \* tetragonal
-             << UT(5,2,0, 4,0, 3), 20 >>,          \* gamma # 90
+           { << UT(5,2,0, 4,0, 3), 20 >>,          \* gamma # 90
              << UT(5,-2,0, 4,0, 3), 20 >>,         \* gamma on the other side of 90
              << UT(3,1,1, 3,1, 3), 12 >>,          \* triclinic, all acute/obtuse the same way
              << UT(7,-3,2, 4,-3, 5), 32 >>,        \* triclinic, strongly oblique
-             << UT(16,0,0, 16,0, 17), 64 >>,       \* cubic strained 6 % along c*
-             << UT(16,1,0, 16,-1, 17), 64 >> }     \* cubic with shear + normal strain
+             << UT(16,0,0, 16,0, 17), 64 >> }      \* cubic strained 6 % along c*
 GB(r1, r2, r3, d) == << <<r1, r2, r3>>, d >>
 GENS_q == { GB(<<1,-1,0>>, <<0,1,-1>>, <<1,1,1>>, 1),      \* hexagonal: gamma = 120 exactly
             GB(<<0,1,1>>, <<1,0,1>>, <<1,1,0>>, 1),        \* primitive fcc (60 degree rhombohedron)
@@ -128,6 +192,7 @@ ROTS_q == { r \in ANGS_q \X ANGS_q \X ANGS_q : PythCount(r) <= 2 }
 ROTS_t == { r \in Ang \X Ang \X Ang : PythCount(r) <= 2 }
 ROTS_id == { <<A0, A0, A0>> }
 NONE == {}
+UNW_b_lower == { <<"b", "val", "lower">> }            \* unitcell_to_b without res[1,0] = res[2,0] = res[2,1] = 0
 
 \* ---- rational matrices <<N, d>> ---------------------------------------------------------------------
 MaxAbs(M) == LET S == {Abs(M[i][j]) : i \in Idx, j \in Idx} IN CHOOSE x \in S : \A y \in S : y <= x
@@ -162,9 +227,13 @@ FitsMt  == MaxAbs(lat.A[1]) * RotD(rot) <= 26000
 FitsInv == MaxAbs(lat.A[1]) * MaxAbs(lat.IA[1]) <= 200000000 \div (RotD(rot) * RotD(rot))
 
 \* ---- cache part ----------------------------------------------------------------------------------------
-Fields == {"UB", "mt", "rmt", "unitcell", "B", "U", "Rod"}
-FieldSeq == <<"UB", "mt", "rmt", "unitcell", "B", "U", "Rod">>
-ReadNames == Fields \cup {"ub", "u"}
+Fields == IF OBJ = "tmap" THEN {"UB", "mt", "unitcell", "B", "U"}
+          ELSE {"UB", "mt", "rmt", "unitcell", "B", "U", "Rod"}
+FieldSeq == IF OBJ = "tmap" THEN <<"UB", "mt", "unitcell", "B", "U">>
+            ELSE <<"UB", "mt", "rmt", "unitcell", "B", "U", "Rod">>
+ReadNames == IF OBJ = "tmap" THEN Fields ELSE Fields \cup {"ub", "u"}
+SetHows == IF OBJ = "tmap" THEN {"setter", "item", "add_map"} ELSE {"set_ubi"}
+NewHows == {"maps", "from_ubis"}
 Target(n) == IF n = "ub" THEN "UB" ELSE IF n = "u" THEN "U" ELSE n
 Dep(f) == CASE f = "rmt" -> "mt" [] f = "unitcell" -> "mt" [] f = "B" -> "unitcell"
             [] f = "U" -> "B" [] f = "Rod" -> "U" [] OTHER -> "none"
@@ -177,7 +246,7 @@ UbiIds == {1, 2}
 RECURSIVE Fill(_, _)
 Fill(c, f) == IF c[f].has THEN c
               ELSE LET c1 == IF Dep(f) = "none" THEN c ELSE Fill(c, Dep(f))
-                       p  == (IF UsesUbi(f) THEN {ver} ELSE {}) \cup
+                       p  == (IF UsesUbi(f) THEN ubip ELSE {}) \cup
                              (IF Dep(f) = "none" THEN {} ELSE c1[Dep(f)].prov)
                    IN [c1 EXCEPT ![f] = [has |-> TRUE, prov |-> p]]
 
@@ -192,39 +261,77 @@ NaN == <<"nan", 0>>
 Out(k, mu, mb) == [v \in Vox |-> IF v \in mu \/ (k = "u" /\ v \in mb) THEN NaN ELSE <<k, v>>]
 Bits(S) == [v \in Vox |-> IF v \in S THEN 1 ELSE 0]
 
+\* ---- call part -----------------------------------------------------------------------------------------
+CallKernels == Kernels \cup {"rmt"}                         \* rmt = fast_invert on the metric tensor map
+Hows == {"alloc", "pos", "out"}
+Priors == {"dirty", "nan"}
+Layouts == {"flat", "grid", "sliced", "recon", "bare", "empty"}
+NoCall == [k |-> "none", how |-> "none", prior |-> "none", lay |-> "none", bv |-> 0]
+ElemClasses(k) == IF k = "b" THEN {"upper", "lower"} ELSE IF k = "cell" THEN {"len", "ang"} ELSE {"all"}
+Arm(k, v, mu, mb) == IF v \in mu \/ (k = "u" /\ v \in mb) THEN "nan" ELSE "val"
+Stored(k, arm) == {e \in ElemClasses(k) : <<k, arm, e>> \notin UNWRITTEN}
+Before(c) == IF c.how = "alloc" THEN "heap" ELSE c.prior
+Elem(c, v, e, mu, mb) == LET a == Arm(c.k, v, mu, mb) IN IF e \in Stored(c.k, a) THEN a ELSE Before(c)
+CallVox(c) == CASE c.lay = "empty" -> {} [] c.lay = "bare" -> {c.bv} [] OTHER -> Vox
+PriorChoices(how) == IF how = "alloc" THEN {"none"} ELSE Priors
+BvChoices(lay) == IF lay = "bare" THEN Vox ELSE {1}
+MuChoices(lay, bv) == CASE lay = "empty" -> {{}} [] lay = "bare" -> {{}, {bv}} [] OTHER -> SUBSET Vox
+MbChoices(k, lay, bv) == IF k # "u" THEN {{}}
+                         ELSE CASE lay = "empty" -> {{}} [] lay = "bare" -> {{}, {bv}} [] OTHER -> {{}, {1, 4}, Vox}
+
 \* ---- behaviour -----------------------------------------------------------------------------------------
-Init == /\ pc = (CASE PART = "alg" -> "cell" [] PART = "cache" -> "cache" [] PART = "map" -> "map0")
+Init == /\ pc = (CASE PART = "alg" -> "cell" [] PART = "cache" -> (IF OBJ = "tmap" THEN "new" ELSE "cache")
+                    [] PART = "map" -> "map0" [] PART = "call" -> "call0")
         /\ lat = NoLat /\ rot = <<A0, A0, A0>>
         /\ ver = 1 /\ cur = 1 /\ cache = EmptyCache /\ ret = {} /\ hist = <<>>
-        /\ mku = {} /\ mkb = {}
+        /\ mku = {} /\ mkb = {} /\ ubip = {1} /\ argl = TRUE /\ cs = NoCall
 
 PickCell == /\ pc = "cell" /\ \E c \in CELLS : lat' = LatOfCell(c)
-            /\ pc' = "rot" /\ UNCHANGED <<rot, ver, cur, cache, ret, hist, mku, mkb>>
+            /\ pc' = "rot" /\ UNCHANGED <<rot, ver, cur, cache, ret, hist, mku, mkb, ubip, argl, cs>>
 PickGen  == /\ pc = "cell" /\ \E a \in GENS : lat' = LatOfGen(a)
-            /\ pc' = "rot" /\ UNCHANGED <<rot, ver, cur, cache, ret, hist, mku, mkb>>
+            /\ pc' = "rot" /\ UNCHANGED <<rot, ver, cur, cache, ret, hist, mku, mkb, ubip, argl, cs>>
 PickRot  == /\ pc = "rot" /\ \E r \in ROTS : rot' = r
-            /\ pc' = "done" /\ UNCHANGED <<lat, ver, cur, cache, ret, hist, mku, mkb>>
+            /\ pc' = "done" /\ UNCHANGED <<lat, ver, cur, cache, ret, hist, mku, mkb, ubip, argl, cs>>
 
-SetUbi(m) == /\ pc = "cache" /\ Len(hist) < MaxDepth
+New(how) == /\ pc = "new" /\ Len(hist) < MaxDepth
+            /\ pc' = "cache" /\ hist' = Append(hist, <<"new", how>>)
+            /\ UNCHANGED <<lat, rot, ver, cur, cache, ret, mku, mkb, ubip, argl, cs>>
+SetUbi(m, how) == /\ pc = "cache" /\ Len(hist) < MaxDepth
              /\ ver' = ver + 1 /\ cur' = m
              /\ cache' = [f \in Fields |-> IF f \in FORGET THEN cache[f] ELSE Empty]
              /\ ret' = {}
-             /\ hist' = Append(hist, <<"set", m>>)
-             /\ UNCHANGED <<pc, lat, rot, mku, mkb>>
+             /\ ubip' = {ver + 1} /\ argl' = TRUE
+             /\ hist' = Append(hist, <<"set", m, how>>)
+             /\ UNCHANGED <<pc, lat, rot, mku, mkb, cs>>
+\* the caller overwrites the array it handed to the constructor / the last set_ubi (grain only)
+EditArg == /\ pc = "cache" /\ OBJ = "grain" /\ argl /\ Len(hist) < MaxDepth
+           /\ argl' = FALSE
+           /\ ubip' = IF ALIASARG THEN {0} ELSE ubip
+           /\ hist' = Append(hist, <<"edit", 0>>)
+           /\ UNCHANGED <<pc, lat, rot, ver, cur, cache, ret, mku, mkb, cs>>
 Read(n) == /\ pc = "cache" /\ Len(hist) < MaxDepth
            /\ LET f == Target(n)
                   c2 == Fill(cache, f)
               IN /\ ret' = c2[f].prov
                  /\ cache' = IF f \in NOCOPY THEN [c2 EXCEPT ![f].prov = @ \cup {0}] ELSE c2
            /\ hist' = Append(hist, <<"read", n>>)
-           /\ UNCHANGED <<pc, lat, rot, ver, cur, mku, mkb>>
+           /\ UNCHANGED <<pc, lat, rot, ver, cur, mku, mkb, ubip, argl, cs>>
 
 MapVoxel == /\ pc = "map0" /\ \E mu \in SUBSET Vox, mb \in SUBSET Vox : mku' = mu /\ mkb' = mb
-            /\ pc' = "map" /\ UNCHANGED <<lat, rot, ver, cur, cache, ret, hist>>
+            /\ pc' = "map" /\ UNCHANGED <<lat, rot, ver, cur, cache, ret, hist, ubip, argl, cs>>
+
+CallPick == /\ pc = "call0"
+            /\ \E k \in CallKernels, how \in Hows, lay \in Layouts :
+                 \E prior \in PriorChoices(how), bv \in BvChoices(lay) :
+                   \E mu \in MuChoices(lay, bv), mb \in MbChoices(k, lay, bv) :
+                      /\ cs' = [k |-> k, how |-> how, prior |-> prior, lay |-> lay, bv |-> bv]
+                      /\ mku' = mu /\ mkb' = mb
+            /\ pc' = "call" /\ UNCHANGED <<lat, rot, ver, cur, cache, ret, hist, ubip, argl>>
 
 Next == PickCell \/ PickGen \/ PickRot
-        \/ SetUbi(2) \/ SetUbi(1) \/ (\E n \in ReadNames : Read(n))
-        \/ MapVoxel
+        \/ (\E h \in NewHows : New(h))
+        \/ (\E m \in {2, 1}, h \in SetHows : SetUbi(m, h)) \/ EditArg \/ (\E n \in ReadNames : Read(n))
+        \/ MapVoxel \/ CallPick
 Spec == Init /\ [][Next]_vars
 
 \* ---- laws: algebra -------------------------------------------------------------------------------------
@@ -270,6 +377,7 @@ EmitAlg == Done =>
 Coherent == \A f \in Fields : cache[f].has => cache[f].prov = {ver}
 ReadFresh == ret = {} \/ ret = {ver}
 DepClosed == \A f \in Fields : (cache[f].has /\ Dep(f) # "none") => cache[Dep(f)].has
+UbiOwn == ubip = {ver}
 CacheType == /\ ver = 1 + Cardinality({i \in 1..Len(hist) : hist[i][1] = "set"})
              /\ cur \in UbiIds
 Step(h) == [ops |-> h, cur |-> cur', ver |-> ver', occ |-> Occupancy(cache'),
@@ -280,7 +388,7 @@ EmitFinal == EmitMode # 2 \/ Len(hist) < MaxDepth \/
                                     fresh |-> IF ret = {} \/ ret = {ver} THEN 1 ELSE 0]))
 \* VIEW for the transition run: history and absolute version numbers are not part of the state identity
 View == <<pc, cur, [f \in Fields |-> <<cache[f].has, cache[f].prov = {ver}, 0 \in cache[f].prov>>],
-          ret = {} \/ ret = {ver}>>
+          ret = {} \/ ret = {ver}, ubip = {ver}, argl>>
 
 \* ---- laws: maps ----------------------------------------------------------------------------------------
 Mapped == pc = "map"
@@ -292,6 +400,16 @@ EmitMap == Mapped =>
    PrintT("@@" \o ToJson([mu |-> Bits(mku), mb |-> Bits(mkb),
           nan1 |-> Bits({v \in Vox : Out("mt", mku, mkb)[v] = NaN}),
           nan2 |-> Bits({v \in Vox : Out("u", mku, mkb)[v] = NaN})]))
+
+\* ---- laws: calls ---------------------------------------------------------------------------------------
+Called == pc = "call"
+CallDefined == Called => \A v \in CallVox(cs) : \A e \in ElemClasses(cs.k) :
+                 /\ Elem(cs, v, e, mku, mkb) \in {"nan", "val"}
+                 /\ (Elem(cs, v, e, mku, mkb) = "nan") <=> (v \in mku \/ (cs.k = "u" /\ v \in mkb))
+EmitCall == Called =>
+   PrintT("@@" \o ToJson([k |-> cs.k, how |-> cs.how, prior |-> cs.prior, lay |-> cs.lay, bv |-> cs.bv,
+          mu |-> Bits(mku), mb |-> Bits(mkb), vox |-> Bits(CallVox(cs)),
+          nan |-> Bits({v \in CallVox(cs) : Arm(cs.k, v, mku, mkb) = "nan"})]))
 
 \* ---- sizes: everything formed above stays below 2^31 ------------------------------------------------------
 ASSUME \A c \in CELLS_t : IsUpper(c[1]) /\ Det(c[1]) > 0 /\ MaxAbs(c[1]) <= 40 /\ c[2] <= 128
